@@ -622,31 +622,6 @@ def setup_constants(unit, tr, fdef):
     return consts
 
 
-def gen_uops(unit, fdef):
-    """stages 1-2: the loop `for uop in instruction_form.port_uops` as g_bal_uops port_list kernel idx ROW UOPS"""
-    outer, inner = find_loops(fdef)
-    alias_guard(outer)
-    loop = Normalize({"instruction_form"}).visit(copy.deepcopy(inner))
-    ast.fix_missing_locations(loop)
-    check_row_scope(loop.body)
-    # port_list must be the machine model's port list, bound once, before the instruction loop
-    pl = [s for s in ast.walk(fdef) if isinstance(s, ast.Name) and s.id == "port_list" and isinstance(s.ctx, (ast.Store, ast.Del))]
-    pls = [s for s in fdef.body if isinstance(s, ast.Assign) and ast.unparse(s) == "port_list = self._machine_model.get_ports()"]
-    if len(pl) != 1 or len(pls) != 1 or pls[0].lineno > outer.lineno:
-        raise Unsupported("port_list is not bound exactly once to self._machine_model.get_ports() before the instruction loop")
-    loop.iter = ast.copy_location(ast.Name(id="UOPS", ctx=ast.Load()), loop.iter)
-    ret = ast.copy_location(ast.Return(value=ast.copy_location(ast.Name(id=ROW, ctx=ast.Load()), loop)), loop)
-    fake = ast.FunctionDef(name="uops_loop", args=fdef.args, body=[loop, ret], decorator_list=[], returns=None, lineno=loop.lineno, col_offset=0)
-    sig = {"params": {"port_list": "list[str]", "kernel": "list[instr]", "idx": "idx", ROW: "list[num]", "UOPS": "list[%s]" % UOP_T},
-           "ret": "list[num]", "coqname": "g_bal_uops", "call": None}
-    tr = BalTr(unit, fake, sig)
-    setup_constants(unit, tr, fdef)
-    tr.view = ("kernel", "idx")
-    tr.may_mutate.add(ROW)
-    text = tr.translate()
-    return tr.defs + [text + "\n"]
-
-
 def gen_balance(repo):
     sem = os.path.join(repo, "osaca/semantics/arch_semantics.py")
     hw = os.path.join(repo, "osaca/semantics/hw_model.py")
@@ -1050,7 +1025,17 @@ class FullTr(BalTr):
                     self.fresh.add(name)
                     self.shared.discard(name)
                 else:
-                    self.shared.add(name)                         # sharing unknown: the variable may be read, never mutated
+                    base = value
+                    while isinstance(base, (ast.Subscript, ast.Attribute)):
+                        base = base.value
+                    if isinstance(base, ast.Call):
+                        base = base.func
+                        while isinstance(base, (ast.Subscript, ast.Attribute)):
+                            base = base.value
+                    if not (isinstance(base, ast.Name) and base.id == "self"):
+                        # e.g. row = kernel[i].port_pressure: a later mutation of the kernel would have to show through `row`
+                        raise Unsupported("list variable %s bound to a part of another object at line %d (aliasing)" % (name, ln))
+                    self.shared.add(name)                         # owned by self: the variable may be read, never mutated
                     self.fresh.discard(name)
             return pre + "let %s := %s in\n" % (self.unit.ident(name), v)
         if isinstance(target, ast.Subscript) and isinstance(target.value, ast.Name) and target.value.id in self.shared:
